@@ -94,20 +94,57 @@ func main() {
 		}
 	}
 
-	root, _ := filepath.Abs(*flagRepo)
-	l, err := newLoader(root)
+	out, varNames, err := analyzeRepo(*flagRepo, excs, *verbose)
 	if err != nil {
 		fmt.Fprintln(os.Stderr, err)
 		os.Exit(2)
 	}
+	facts := out.Facts
+	if *flagJSON != "" {
+		b, _ := json.MarshalIndent(out, "", " ")
+		if err := os.WriteFile(*flagJSON, append(b, '\n'), 0o644); err != nil {
+			fmt.Fprintln(os.Stderr, err)
+			os.Exit(2)
+		}
+	}
+	if *flagLean != "" {
+		if err := os.WriteFile(*flagLean, []byte(leanFile(out, varNames)), 0o644); err != nil {
+			fmt.Fprintln(os.Stderr, err)
+			os.Exit(2)
+		}
+	}
+	if *verbose {
+		for _, f := range facts {
+			fmt.Printf("%-70s %s [%s] %s %s\n", f.Var, rw(f.Write), lockStr(f), f.Site, f.Fn)
+		}
+	}
+	fmt.Printf("locks: %d entry points, %d facts, %d variables, %d lock classes, %d immutable fields, %d thread-local accesses skipped, %d exceptions, %d type errors\n",
+		len(out.Entries), len(facts), len(varNames), len(out.LockClasses), len(out.Immutable), out.FreshSkipped, len(excs), len(out.TypeErrors))
+	for _, v := range out.Vars {
+		if !v.OK {
+			fmt.Printf("UNDISCIPLINED %s (best candidate %q)\n", v.Name, v.Lock)
+			for _, b := range v.Bad {
+				fmt.Printf("    %s\n", b)
+			}
+		}
+	}
+	_ = token.NoPos
+}
+
+// analyzeRepo runs the whole translation on the module rooted at repoDir
+func analyzeRepo(repoDir string, excs []exception, verbose bool) (*output, []string, error) {
+	root, _ := filepath.Abs(repoDir)
+	l, err := newLoader(root)
+	if err != nil {
+		return nil, nil, err
+	}
 	tl := time.Now()
 	err = l.loadAll(map[string]bool{"testutils": true, "zzverif": true})
-	if *verbose {
+	if verbose {
 		fmt.Fprintf(os.Stderr, "load %v, %d packages, %d type errors\n", time.Since(tl), len(l.pkgs), len(l.errs))
 	}
 	if err != nil {
-		fmt.Fprintln(os.Stderr, "load:", err)
-		os.Exit(2)
+		return nil, nil, fmt.Errorf("load: %v", err)
 	}
 	a := &analyzer{l: l, fset: l.fset, facts: map[string]*fact{}, memo: map[string]bool{}, retMemo: map[string][]oset{}, retBusy: map[string]bool{},
 		staticEnvs: map[*funcInfo]*env{}, entrySeen: map[*funcInfo]bool{}, configMeth: map[string]string{}, readonlyMeth: map[string]string{}, usedConfig: map[string]bool{}, notes: map[string]bool{}}
@@ -119,14 +156,13 @@ func main() {
 			a.readonlyMeth[e.Name] = e.Reason
 		case "var":
 		default:
-			fmt.Fprintln(os.Stderr, "exceptions: unknown kind", e.Kind)
-			os.Exit(2)
+			return nil, nil, fmt.Errorf("exceptions: unknown kind %q", e.Kind)
 		}
 	}
 	t0 := time.Now()
 	a.index()
 	a.run()
-	if *verbose {
+	if verbose {
 		fmt.Fprintf(os.Stderr, "analysis %v, %d contexts\n", time.Since(t0), len(a.memo))
 	}
 
@@ -292,35 +328,7 @@ func main() {
 	}
 	out.Exceptions = excs
 
-	if *flagJSON != "" {
-		b, _ := json.MarshalIndent(out, "", " ")
-		if err := os.WriteFile(*flagJSON, append(b, '\n'), 0o644); err != nil {
-			fmt.Fprintln(os.Stderr, err)
-			os.Exit(2)
-		}
-	}
-	if *flagLean != "" {
-		if err := os.WriteFile(*flagLean, []byte(leanFile(out, varNames)), 0o644); err != nil {
-			fmt.Fprintln(os.Stderr, err)
-			os.Exit(2)
-		}
-	}
-	if *verbose {
-		for _, f := range facts {
-			fmt.Printf("%-70s %s [%s] %s %s\n", f.Var, rw(f.Write), lockStr(f), f.Site, f.Fn)
-		}
-	}
-	fmt.Printf("locks: %d entry points, %d facts, %d variables, %d lock classes, %d immutable fields, %d thread-local accesses skipped, %d exceptions, %d type errors\n",
-		len(out.Entries), len(facts), len(varNames), len(out.LockClasses), len(out.Immutable), out.FreshSkipped, len(excs), len(l.errs))
-	for _, v := range out.Vars {
-		if !v.OK {
-			fmt.Printf("UNDISCIPLINED %s (best candidate %q)\n", v.Name, v.Lock)
-			for _, b := range v.Bad {
-				fmt.Printf("    %s\n", b)
-			}
-		}
-	}
-	_ = token.NoPos
+	return out, varNames, nil
 }
 
 func rw(w bool) string {
@@ -387,16 +395,28 @@ func leanFile(out *output, varNames []string) string {
 	for i, n := range varNames {
 		fmt.Fprintf(&b, "  %q%s\n", n, comma(i, len(varNames)))
 	}
-	b.WriteString("]\n\ndef facts : List Fact := [\n")
-	for i, f := range out.Facts {
-		var ls []string
-		for _, l := range f.Locks {
-			ls = append(ls, fmt.Sprintf("(%d, %v)", lockID[l[0]], l[1] == "W"))
+	b.WriteString("]\n\n/-- group `i` = the access sites of variable `i` -/\ndef groups : List (List Fact) := [\n")
+	gi := 0
+	for v := range varNames {
+		fmt.Fprintf(&b, "  -- %d %s\n  [", v, varNames[v])
+		first := true
+		for gi < len(out.Facts) && varID[out.Facts[gi].Var] == v {
+			f := out.Facts[gi]
+			var ls []string
+			for _, l := range f.Locks {
+				ls = append(ls, fmt.Sprintf("(%d, %v)", lockID[l[0]], l[1] == "W"))
+			}
+			if !first {
+				b.WriteString(",\n   ")
+			}
+			first = false
+			fmt.Fprintf(&b, "⟨%d, %v, [%s], %q⟩", v, f.Write, strings.Join(ls, ", "), f.Site)
+			gi++
 		}
-		fmt.Fprintf(&b, "  ⟨%d, %v, [%s], %q⟩%s\n", varID[f.Var], f.Write, strings.Join(ls, ", "), f.Site, comma(i, len(out.Facts)))
+		fmt.Fprintf(&b, "]%s\n", comma(v, len(varNames)))
 	}
-	b.WriteString("]\n\n")
-	fmt.Fprintf(&b, "def numVars : Nat := %d\ndef numLocks : Nat := %d\n\nend Locks.Generated\n", len(varNames), len(out.LockClasses))
+	b.WriteString("]\n\n/-- all facts -/\ndef facts : List Fact := groups.flatten\n\n")
+	fmt.Fprintf(&b, "def numVars : Nat := %d\ndef numLocks : Nat := %d\ndef numFacts : Nat := %d\n\nend Locks.Generated\n", len(varNames), len(out.LockClasses), len(out.Facts))
 	return b.String()
 }
 
